@@ -574,7 +574,10 @@ def module_constants():
     for name in ("dashlive.server.options.drm_options", "dashlive.server.options.manifest_options",
                  "dashlive.server.options.utc_time_options", "dashlive.server.options.http_error",
                  "dashlive.server.events.base", "dashlive.server.events.factory", "dashlive.drm.location",
-                 "dashlive.drm.system", "dashlive.server.requesthandler.base"):
+                 "dashlive.drm.system", "dashlive.drm.base", "dashlive.drm.playready", "dashlive.drm.clearkey",
+                 "dashlive.drm.marlin", "dashlive.drm.keymaterial", "dashlive.server.requesthandler.base",
+                 "dashlive.server.requesthandler.drm_context", "dashlive.server.options.container",
+                 "dashlive.server.options.repository", "dashlive.server.manifests"):
         try:
             mod = importlib.import_module(name)
         except Exception:
@@ -652,13 +655,36 @@ def run_history(history, probe, rows):
     import flask
     from dashlive.server.requesthandler.media_requests import LiveMedia
     a = app()
+    consts = module_constants()
     fails0, _, st0 = run_case(probe, rows, want_model=False)
     fails = list(fails0)
-    for h in history:
+
+    def constants_changed(after_what):
+        nonlocal consts
+        now = module_constants()
+        if now != consts:
+            before = dict(((m, c, k), v) for m, c, k, v in consts)
+            changed = [f"{m}.{c + '.' if c and c != m else ''}{k}: {before.get((m, c, k))} -> {v}"
+                       for m, c, k, v in now if before.get((m, c, k)) != v][:4]
+            fails.append({"what": "a request changed a module/class level constant of the option or DRM layer "
+                                  "(shared by every later request)", "request": after_what, "changed": changed})
+            consts = now
+
+    constants_changed("probe: " + case_url(probe))
+    for n, h in enumerate(history):
         try:
-            run_case(h, rows, want_model=False)
+            _, _, sth = run_case(h, rows, want_model=False)
+            if h.get("fetch_init"):
+                # the media handler (DRM classes building an init segment) is part of the history as well
+                inits = [u for u in (sth.get("url_specs") or {}) if "/init." in u]
+                if inits:
+                    sp = urllib.parse.urlsplit(inits[0])
+                    import appboot
+                    with appboot.Clock(h["now"]):
+                        a.client().get(sp.path + ("?" + sp.query if sp.query else ""))
         except Exception:
             pass
+        constants_changed(f"history[{n}]: " + case_url(h))
     set_defaults(probe.get("defaults", "A"))
     with a.app.test_request_context("/"):
         stream = a.models.Stream.get(directory=probe["stream"])
